@@ -186,7 +186,7 @@ def step (S : Entries) (toks : List String) : Entries × String :=
   | ["dump"] => (S, eStore S)
   | ["chain", cx] =>
     match pCtx cx with
-    | some cx => (S, eResult (compile S cx))
+    | some cx => (S, eResult (compile (gather S cx.svc) cx))   -- Store.ReadDiscoveryChainConfigEntries + Compile
     | none => (S, "bad-op")
   | _ => (S, "bad-op")
 
